@@ -794,3 +794,13 @@ func init() {
 		NotCov:      "the end-to-end history statement (ack observed ⇒ partner received) — needs a model of both sides and the transport.",
 		Assumptions: commonAssumptions})
 }
+
+func isFalseConst(v ssa.Value) bool {
+	k, ok := v.(*ssa.Const)
+	return ok && k.Value != nil && k.Value.String() == "false"
+}
+
+func isBoolType(t types.Type) bool {
+	b, ok := t.Underlying().(*types.Basic)
+	return ok && b.Kind() == types.Bool
+}
